@@ -487,6 +487,8 @@ pub fn guarded<C: Debug>(check: &(dyn Fn(&C) -> CheckResult + Sync), case: &C) -
             Ok(r) => r,
             Err(p) => Err(Fail::new("panic", format!("panicked: {}", panic_message(p)))),
         };
+        // per-case servers, listeners and tasks registered by the check end here
+        crate::peers::net::end_of_case();
         // A failure of the harness's own plumbing (no free port, connect refused by the
         // harness's own listener under load) is retried before it is reported as
         // inconclusive; it is never a verdict about the property.
